@@ -89,6 +89,7 @@ FaultsNext ==
     /\ UNCHANGED <<mode, c0, stg, idle>>
     /\ \/ \E dt \in {1, 1, 2, 7}, q \in Requotes(FALSE) : TickWith(dt, q) /\ Add(<<[e |-> "Tick", dt |-> dt]>> \o SvcStep(q))
        \/ Poll /\ Add(<<[e |-> "Poll"]>>)
+       \/ \E qs \in {{"valid"}, {"params"}, {"feeds"}, {"vprices"}, {"params", "vprices"}} : PollFail(qs) /\ Add(<<[e |-> "Poll", q |-> qs]>>)
        \/ \E r \in subs, res \in {"ok", "err", "chk", "oog"} : Bcast(r.id, res) /\ Add(<<[e |-> "Bcast", id |-> r.id, r |-> res]>>)
        \/ \E r \in subs, res \in {"found", "timeout"} : TxResult(r.id, res) /\ Add(<<[e |-> "TxResult", id |-> r.id, r |-> res]>>)
        \/ \E d \in 0..par.D, k \in SlotChoices \cup {0} : Block(d, k) /\ Add(<<[e |-> "Block", d |-> d]>>)
